@@ -37,12 +37,10 @@ var (
 )
 
 func GetTccFenceStoreDatabaseMapper() *TccFenceStoreDatabaseMapper {
-	if tccFenceStoreDatabaseMapper == nil {
-		once.Do(func() {
-			tccFenceStoreDatabaseMapper = &TccFenceStoreDatabaseMapper{}
-			tccFenceStoreDatabaseMapper.InitLogTableName()
-		})
-	}
+	once.Do(func() {
+		tccFenceStoreDatabaseMapper = &TccFenceStoreDatabaseMapper{}
+		tccFenceStoreDatabaseMapper.InitLogTableName()
+	})
 	return tccFenceStoreDatabaseMapper
 }
 
